@@ -24,9 +24,38 @@
 
 """
 
-from Crypto.Hash import SHA256
 from Crypto.PublicKey import RSA
 from Crypto.Signature import pkcs1_15
+
+
+class _PrehashedSHA1(object):  # pylint: disable=too-few-public-methods
+    """A stand-in for a ``Crypto.Hash`` object whose digest is the data itself.
+
+    The token that the device sends is treated by ``adbd`` as a SHA-1 digest, so it must be signed as is (not hashed again).
+
+    Parameters
+    ----------
+    data : bytes
+        The already hashed data (i.e., the token from the device)
+
+    """
+
+    oid = '1.3.14.3.2.26'
+    digest_size = 20
+
+    def __init__(self, data):
+        self._data = data
+
+    def digest(self):
+        """Return the data that was provided.
+
+        Returns
+        -------
+        bytes
+            ``self._data``
+
+        """
+        return self._data
 
 
 class PycryptodomeAuthSigner(object):
@@ -69,7 +98,7 @@ class PycryptodomeAuthSigner(object):
             The signed ``data``
 
         """
-        h = SHA256.new(data)
+        h = _PrehashedSHA1(data)
         return pkcs1_15.new(self.rsa_key).sign(h)
 
     def GetPublicKey(self):
